@@ -503,6 +503,8 @@ def r18_6(ctx) -> None:
 
 
 def run(ctx) -> None:
+    from .c14 import r14_6_7 as _r14_6_7
+    ctx.guard_as("R18.9", _r14_6_7, "jwe")  # the fresh iv / epk is the one that is emitted (add_header stores the new value in every branch)
     # generated keys are pairwise distinct and of the requested size: a key's JWK view is built from its own native key, never inside an object shared with other keys
     from .c20 import r20_1, key_class_functions
     from ..effects import Effects
